@@ -310,6 +310,9 @@ def run(ctx):
     if c09:
         # engineered trie shapes (branch over leaf + committed branch, see shapesHistory): deletes that collapse a branch
         plan.append(("shapes", 6 if q else 18, 50 if q else 70))
+    else:
+        # engineered job histories (emptied data trie + data trie, commits and prunes while the data tries are copied)
+        plan.append(("jobshapes", 4 if q else 12, 40 if q else 60))
     if c09 and not q:
         plan.append(("nojobs", 80, 120))
     nseed = 1 if q else 2
